@@ -386,8 +386,7 @@ class PythonToIrCompiler:
             assert var.lvalue
             lhs = self.builder.emit_load(var.value, var.ty)
             rhs = self.gen_expr(statement.value)
-            op = self.binop_map[type(statement.op)]
-            value = self.emit(ir.Binop(lhs, op, rhs, "augassign", var.ty))
+            value = self.gen_arithmetic(statement, lhs, rhs, var.ty)
             self.emit(ir.Store(value, var.value))
         else:  # pragma: no cover
             self.not_impl(statement)
@@ -491,7 +490,6 @@ class PythonToIrCompiler:
         ast.Sub: "-",
         ast.Mult: "*",
         ast.Div: "/",
-        ast.FloorDiv: "/",
     }
 
     def gen_binop(self, expr):
@@ -503,13 +501,42 @@ class PythonToIrCompiler:
             # TODO: automatic coercion
         # TODO: assume type of a?
         ty = a.ty
-        op_typ = type(expr.op)
+        return self.gen_arithmetic(expr, a, b, ty)
+
+    def gen_arithmetic(self, node, a, b, ty):
+        """Emit the binary operation of a BinOp or AugAssign node."""
+        op_typ = type(node.op)
         if op_typ in self.binop_map:
             op = self.binop_map[op_typ]
+            value = self.builder.emit_binop(a, op, b, ty)
+        elif op_typ is ast.FloorDiv and ty.is_signed:
+            value = self.gen_floor_div(a, b, ty)
         else:
-            self.not_impl(expr)
-        value = self.builder.emit_binop(a, op, b, ty)
+            self.not_impl(node)
         return value
+
+    def gen_floor_div(self, a, b, ty):
+        """Integer floor division, rounds to minus infinity like python.
+
+        The division of the IR truncates toward zero. The results differ
+        by one when the remainder is not zero and its sign is not the sign
+        of the divisor.
+        """
+        emit_binop = self.builder.emit_binop
+        quotient = emit_binop(a, "/", b, ty)
+        remainder = emit_binop(a, "%", b, ty)
+        sign_shift = self.builder.emit_const(ty.bits - 1, ty)
+        zero = self.builder.emit_const(0, ty)
+        # All ones when the signs of remainder and divisor differ:
+        mixed = emit_binop(remainder, "^", b, ty)
+        differ = emit_binop(mixed, ">>", sign_shift, ty)
+        # All ones when the remainder is not zero:
+        negated = emit_binop(zero, "-", remainder, ty)
+        either = emit_binop(remainder, "|", negated, ty)
+        nonzero = emit_binop(either, ">>", sign_shift, ty)
+        # Minus one when the quotient must be rounded down, else zero:
+        adjust = emit_binop(differ, "&", nonzero, ty)
+        return emit_binop(quotient, "+", adjust, ty)
 
     def gen_call(self, expr):
         """Compile call-expression."""
